@@ -94,6 +94,18 @@ class Impl:
             self.dm = 1 if models.Date._format_value(datetime.date(999, 1, 2)) == '0999-01-02' else 0
         except Exception:
             self.dm = 0
+        # does the raw_text setter write the text before parsing it (as found) or parse first
+        # (fixes/token-raw-text-parse-first.patch)?  Both satisfy C12; the model follows the tree.
+        self.rm = 0
+        try:
+            t = models.Bool.from_raw_text('TRUE')
+            try:
+                t.raw_text = 'MAYBE'
+            except Exception:
+                pass
+            self.rm = 1 if t.raw_text == 'TRUE' else 0
+        except Exception:
+            pass
 
     def K(self, name):
         return getattr(self.models, name)
@@ -268,7 +280,7 @@ def observe_history(impl: Impl, args):
 
 def coq_case(impl: Impl, k: int, args, exp) -> str:
     ll = lambda xs: common.coq_list(common.coq_zlist(x) for x in xs)
-    return f'mkc {k} {impl.sm} {impl.dm} {ll(args)} {ll(exp)}'
+    return f'mkc {k} {impl.sm} {impl.dm} {impl.rm} {ll(args)} {ll(exp)}'
 
 
 # ------------------------------------------------------------------------------------------------------
@@ -725,7 +737,7 @@ def run_all(ctx: common.Ctx):
     impl = Impl()
     rng = ctx.rng
     ctx.notes.append(f'tree under test: _splitlines mode={"LF-only" if impl.sm else "str.splitlines"}, '
-                     f'Date format={"zero-padded" if impl.dm else "strftime"}')
+                     f'Date format={"zero-padded" if impl.dm else "strftime"}, raw_text setter={"parse-first" if impl.rm else "write-first"}')
     tie(ctx, impl)
     if impl.sm == 0:
         ctx.fail('tie', 'model-mode:BlockComment',
